@@ -139,16 +139,29 @@ package cert
 //@   ensures @C10,C14,C17 err == nil ==> BufContent(unboxRef(w)) == bcat(old(BufContent(unboxRef(w))), pemKey(prk))
 
 //@ func MarshalPKCS8PrivateKey returns (res, err)
-//@   props C17
-//@   uses fs.smt2
-//@   unverified PKCS#8 assembly (C17) not yet under contract
+//@   props C17 C14
+//@   uses fs.smt2 ec.smt2
+//@   given NAMEOIDS
+//@   given oidv(oidRsaEncryption) == oid("1.2.840.113549.1.1.1") && oidv(oidEcPublicKey) == oid("1.2.840.10045.2.1")
+//@   ghostret P8 gopki/generator/cert.pkcs8 = unboxed(callarg("encoding/asn1.Marshal", 2, 0), "gopki/generator/cert.pkcs8")
+//@   ghostret P8R gopki/generator/cert.pkcs8 = unboxed(callarg("encoding/asn1.Marshal", 1, 0), "gopki/generator/cert.pkcs8")
+//@   ghostret ECDER Bytes = bytes(callres("gopki/generator/cert.marshalECPrivateKeyWithOID", 1, 0))
+//@   let K = typed(unboxRef(key), "*crypto/ecdsa.PrivateKey")
+//@   assume typeis(key, "*crypto/ecdsa.PrivateKey") ==> K != nil && K.Curve != nil && K.D != nil && K.X != nil && K.Y != nil && 4 <= curveId(K.Curve) && curveId(K.Curve) <= 13 && 0 <= BigVal(K.D) && BigVal(K.D) < curveOrder(curveId(K.Curve))
+//@   assume typeis(key, "*crypto/rsa.PrivateKey") ==> unboxRef(key) != 0
+//@   ensures err != nil ==> res == nil
+//@   ensures @C17 bound(P8R) ==> typeis(key, "*crypto/rsa.PrivateKey") && P8R.Version == 0 && oidv(P8R.Algo.Algorithm) == oid("1.2.840.113549.1.1.1") && P8R.Algo.Parameters.Tag == 5 && P8R.Algo.Parameters.Class == 0 && len(P8R.Algo.Parameters.FullBytes) == 0 && bytes(P8R.PrivateKey) == pkcs1priv(unboxRef(key)) && (err == nil ==> bytes(res) == der(deep(P8R)))
+//@   ensures @C17 err == nil ==> bound(P8R) || bound(P8)
+//@   ensures @C17 bound(P8) ==> typeis(key, "*crypto/ecdsa.PrivateKey") && P8.Version == 0 && oidv(P8.Algo.Algorithm) == oid("1.2.840.10045.2.1") && bytes(P8.PrivateKey) == ECDER && (err == nil ==> bytes(res) == der(deep(P8)))
+//@   ensures @C17 bound(P8) ==> bytes(P8.Algo.Parameters.FullBytes) == der(deepOid(specCurveOid(curveId(K.Curve))))
+//@   ensures @C17 !typeis(key, "*crypto/rsa.PrivateKey") && !typeis(key, "*crypto/ecdsa.PrivateKey") ==> err != nil
 //@   abstracts err == nil ==> bytes(res) == pkcs8(key)
 
 // ---- extensions (C06: identifier and critical flag; C07: value)
 
 //@ filelet CURVES = curves != nil && (forall a in [4, 14) :: has(curves, a) && curves[a] != nil && curveId(curves[a]) == a)
 //@ filelet OIDCURVES = oidv(oidP224) == specCurveOid(4) && oidv(oidP256) == specCurveOid(5) && oidv(oidP384) == specCurveOid(6) && oidv(oidP521) == specCurveOid(7) && oidv(oidBrainpoolP256r1) == specCurveOid(8) && oidv(oidBrainpoolP384r1) == specCurveOid(9) && oidv(oidBrainpoolP512r1) == specCurveOid(10) && oidv(oidBrainpoolP256t1) == specCurveOid(11) && oidv(oidBrainpoolP384t1) == specCurveOid(12) && oidv(oidBrainpoolP512t1) == specCurveOid(13)
-//@ filelet NAMEOIDS = curveNameOids != nil && (forall a in [4, 14) :: has(curveNameOids, curveName(a)) && curveNameOids[curveName(a)] != nil && oidv(curveNameOids[curveName(a)]) == specCurveOid(a))
+//@ filelet NAMEOIDS = curveNameOids != nil && (forall a in [4, 14) expand :: has(curveNameOids, curveName(a)) && curveNameOids[curveName(a)] != nil && oidv(curveNameOids[curveName(a)]) == specCurveOid(a))
 
 // ---- extensions (C06: identifier and critical flag; C07: value)
 //@ filelet EXTOIDS = oidExtensionSubjectKeyId != nil && oidv(oidExtensionSubjectKeyId) == specExtOid(0) && oidExtensionKeyUsage != nil && oidv(oidExtensionKeyUsage) == specExtOid(1) && oidExtensionExtendedKeyUsage != nil && oidv(oidExtensionExtendedKeyUsage) == specExtOid(2) && oidExtensionAuthorityKeyId != nil && oidv(oidExtensionAuthorityKeyId) == specExtOid(3) && oidExtensionBasicConstraints != nil && oidv(oidExtensionBasicConstraints) == specExtOid(4) && oidExtensionSubjectAltName != nil && oidv(oidExtensionSubjectAltName) == specExtOid(5) && oidExtensionCertificatePolicies != nil && oidv(oidExtensionCertificatePolicies) == specExtOid(6) && oidExtensionAuthorityInfoAccess != nil && oidv(oidExtensionAuthorityInfoAccess) == specExtOid(9) && oidExtensionAdmission != nil && oidv(oidExtensionAdmission) == specExtOid(11) && oidExtensionOcspNoCheck != nil && oidv(oidExtensionOcspNoCheck) == specExtOid(12)
@@ -354,12 +367,41 @@ package cert
 //@ func parseECPrivateKey returns (key, err)
 //@   props C17 C14
 //@   uses ec.smt2
-//@   let EC = aftercall("encoding/asn1.Unmarshal", 1, deref(addr(privKey)))
+//@   let ECL = aftercall("encoding/asn1.Unmarshal", 1, deref(addr(privKey)))
+//@   let CIDL = (if namedCurveOID != nil then curveOfOid(oidv(old(deref(namedCurveOID)))) else curveOfOid(oidv(ECL.NamedCurveOID)))
+//@   ghostret EC gopki/generator/cert.ecPrivateKey = aftercall("encoding/asn1.Unmarshal", 1, deref(addr(privKey)))
+//@   ghostret D Int = be(aftercall("encoding/asn1.Unmarshal", 1, bytes(deref(addr(privKey)).PrivateKey)))
 //@   let CID = (if namedCurveOID != nil then curveOfOid(oidv(old(deref(namedCurveOID)))) else curveOfOid(oidv(EC.NamedCurveOID)))
-//@   let D = be(aftercall("encoding/asn1.Unmarshal", 1, bytes(deref(addr(privKey)).PrivateKey)))
 //@   ensures err != nil ==> key == nil
 //@   ensures @C17,C14 err == nil ==> EC.Version == 1 && CID >= 4 && key != nil && fresh(key) && key.Curve != nil && curveId(key.Curve) == CID
 //@   ensures @C17,C14 err == nil ==> key.D != nil && BigVal(key.D) == D && D < curveOrder(CID)
 //@   ensures @C17,C14 err == nil ==> key.X != nil && key.Y != nil && BigVal(key.X) == sbmX(CID, D) && BigVal(key.Y) == sbmY(CID, D)
 //@   loop 1
-//@     invariant @C17,C14 be(bytes(privKey.PrivateKey)) == entry(be(bytes(privKey.PrivateKey))) && len(privateKey) == curveBytes(CID) && fresh(privateKey)
+//@     invariant @C17,C14 be(bytes(privKey.PrivateKey)) == entry(be(bytes(privKey.PrivateKey))) && len(privateKey) == curveBytes(CIDL) && fresh(privateKey)
+
+// marshalECPrivateKeyWithOID: RFC 5915 ECPrivateKey, version 1, the scalar as exactly ceil(bitlen(n)/8) big-endian
+// octets, the given curve OID, the uncompressed public point.
+//@ func marshalECPrivateKeyWithOID returns (res, err)
+//@   props C17
+//@   uses ec.smt2
+//@   ghostret EC gopki/generator/cert.ecPrivateKey = unboxed(callarg("encoding/asn1.Marshal", 1, 0), "gopki/generator/cert.ecPrivateKey")
+//@   let CID = curveId(key.Curve)
+//@   requires key != nil
+//@   assume key.Curve != nil && key.D != nil && key.X != nil && key.Y != nil && 4 <= CID && CID <= 13 && 0 <= BigVal(key.D) && BigVal(key.D) < curveOrder(CID)
+//@   ensures err != nil ==> res == nil
+//@   ensures @C17 bound(EC) ==> EC.Version == 1 && len(EC.PrivateKey) == curveBytes(CID) && bytes(EC.PrivateKey) == bePad(BigVal(key.D), curveBytes(CID)) && EC.NamedCurveOID == oid && bytes(EC.PublicKey.Bytes) == ecPoint(CID, BigVal(key.X), BigVal(key.Y))
+//@   ensures @C17 bound(EC) ==> err == nil ==> bytes(res) == der(deep(EC))
+//@   ensures !bound(EC) ==> err != nil
+
+
+// ParsePKCS8PrivateKey: RSA keys go to the PKCS#1 parser, EC keys to parseECPrivateKey with the curve OID of the
+// algorithm parameters (if it parses), anything else is an error.
+//@ func ParsePKCS8PrivateKey returns (key, err)
+//@   props C17 C14
+//@   uses ec.smt2 fs.smt2
+//@   given oidv(oidRsaEncryption) == oid("1.2.840.113549.1.1.1") && oidv(oidEcPublicKey) == oid("1.2.840.10045.2.1")
+//@   let P8 = aftercall("encoding/asn1.Unmarshal", 1, deref(addr(privKey)))
+//@   ensures err != nil ==> key == nil
+//@   ensures @C17 err == nil ==> (oidv(P8.Algo.Algorithm) == oid("1.2.840.113549.1.1.1") || oidv(P8.Algo.Algorithm) == oid("1.2.840.10045.2.1"))
+//@   ensures @C17 err == nil && oidv(P8.Algo.Algorithm) == oid("1.2.840.113549.1.1.1") ==> called("crypto/x509.ParsePKCS1PrivateKey", 1) && typeis(key, "*crypto/rsa.PrivateKey") && pkcs1priv(unboxRef(key)) == aftercall("encoding/asn1.Unmarshal", 1, bytes(deref(addr(privKey)).PrivateKey))
+//@   ensures @C17,C14 err == nil && oidv(P8.Algo.Algorithm) != oid("1.2.840.113549.1.1.1") ==> called("gopki/generator/cert.parseECPrivateKey", 1) && callres("gopki/generator/cert.parseECPrivateKey", 1, 1) == nil && typeis(key, "*crypto/ecdsa.PrivateKey") && unboxRef(key) == callres("gopki/generator/cert.parseECPrivateKey", 1, 0)
